@@ -11,7 +11,7 @@ from ..run import HarnessError
 M = S.M
 
 
-def bases():
+def bases(tier='thorough'):
     E = S.Enum('E', [('E_A', 1), ('E_B', 4)])
     out = {}
     out['const_enum_struct'] = [S.Const('K', '3'), E, S.Struct('F', [M('p', 'u8'), M('e', 'E')]),
@@ -29,6 +29,14 @@ def bases():
     out['independent'] = [S.Struct('A', [M('a', 'u8')]), S.Struct('B', [M('b', 'u16')]), S.Struct('X', [M('x', 'u32', S.OPT)])]
     out['typedef_struct_chain'] = [S.Struct('F', [M('p', 'u8'), M('q', 'u64')]), S.Typedef('TF', 'F'), S.Typedef('TTF', 'TF'),
                                    S.Struct('X', [M('a', 'TTF', S.LIMITED, 2), M('b', 'TF', S.OPT)])]
+    if tier == 'thorough':
+        out['five_layers'] = [S.Const('N', '2'), S.Enum('EN', [('EN_A', 'N'), ('EN_B', 'N + 3')]),
+                              S.Struct('L1', [M('e', 'EN'), M('a', 'u8', S.FIXED, 'N')]),
+                              S.Struct('L2', [M('l', 'L1', S.DYNAMIC), M('o', 'L1', S.OPT)]),
+                              S.Struct('X', [M('n', 'u16'), M('l2', 'L2', S.EXT, 'n'), M('t', 'u8', S.LIMITED, 'EN_B')])]
+        out['union_of_unions'] = [S.Struct('P', [M('a', 'u64')]), S.Union('U1', [S.Arm(1, 'u8', 'a'), S.Arm(2, 'P', 'p')]),
+                                  S.Typedef('TU1', 'U1'), S.Union('U2', [S.Arm(1, 'TU1', 'u'), S.Arm(2, 'u16', 'b')]),
+                                  S.Struct('X', [M('u', 'U2', S.LIMITED, 2), M('o', 'TU1', S.OPT)])]
     return out
 
 
@@ -103,7 +111,7 @@ def partitions(defs, maxfiles=3):
                 yield k, assign, deps
 
 
-FILE_STEMS = ['geometry', 'history', 'top']      # stems ending in letters of ".prophy" on purpose
+FILE_STEMS = ['geometry', 'history', 'top', 'happy']      # stems ending in letters of ".prophy" on purpose
 
 
 def file_texts(defs, k, assign, deps, include_all):
@@ -199,6 +207,7 @@ def judge(job):
     home = os.getcwd()
     try:
         defs = bases()[bname]
+        maxfiles = 3 if tier == 'quick' else 4
         rdefs, env = resolve_consts(defs)
         ref = R.Ref(rdefs)
         single = T.compile_text(S.render_prophy(defs), outs=('python',), name='single')
@@ -209,7 +218,7 @@ def judge(job):
         snodes = dict((n.name, n) for n in single.nodes['single'])
         comps = [d.name for d in defs if isinstance(d, (S.Struct, S.Union))]
         vals = dict((c, V.Values(ref, tier).enumerate(c, 12)[0]) for c in comps)
-        for k, assign, deps in partitions(defs, 3):
+        for k, assign, deps in partitions(defs, maxfiles):
             out['partitions'] += 1
             for include_all in (False, True, 'common'):
                 texts = file_texts(defs, k, assign, deps, include_all)
@@ -392,7 +401,7 @@ def judge_shadow(job):
 
 
 def run(ctx):
-    names = sorted(bases())
+    names = sorted(bases(ctx.tier))
     for res in ctx.pmap(judge, [(n, ctx.tier) for n in names]):
         if 'harness_error' in res:
             raise HarnessError(res['harness_error'])
@@ -423,12 +432,12 @@ def run(ctx):
                 ctx.violations[key].append(art)
     for key in [k for k, v in ctx.violations.items() if not v]:
         del ctx.violations[key]
-    ctx.cov['rule'] = ('states = (base schema, partition): %d base schemas x every assignment of their declarations to 2 or 3 '
+    ctx.cov['rule'] = ('states = (base schema, partition): %d base schemas x every assignment of their declarations to 2..%d '
                        'files with dependencies pointing to the same or a lower file (direct, chained and diamond includes; '
                        'minimal and all-lower include lists); transitions = prophyc runs over the arrangements %s plus a missing '
                        'and a cyclic include variant of every partition. Checked per run: every generated module imports, '
                        'constants / enumerators / layouts / encodings over V(T) equal the single-file build and the reference '
-                       'model, every input file is opened exactly once (Python audit hook on open).' % (len(names), list(ARRANGEMENTS)))
+                       'model, every input file is opened exactly once (Python audit hook on open).' % (len(names), 3 if ctx.tier == 'quick' else 4, list(ARRANGEMENTS)))
     ctx.assumptions += ['opens are counted in-process through sys.addaudithook (no change to the code under test)']
 
 
